@@ -140,6 +140,13 @@ Fixpoint dec_stmts (l : list wv) : option (list stmt) :=
   | x :: r => match dec_stmt x, dec_stmts r with Some s, Some ss => Some (s :: ss) | _, _ => None end
   end.
 
+Fixpoint dec_bodies (l : list wv) : option (list (list stmt)) :=
+  match l with
+  | [] => Some []
+  | WL b :: r => match dec_stmts b, dec_bodies r with Some bs, Some rest => Some (bs :: rest) | _, _ => None end
+  | _ => None
+  end.
+
 Definition run (v : wv) : wv :=
   match v with
   | WL [WI 0; WI cols; WI rows; WL as_; nows] =>
@@ -174,6 +181,13 @@ Definition run (v : wv) : wv :=
       | Some a, Some b => wok [WL (map w_var (tree_loop_ticks a b)); WL (map w_var (tree_all_vars a b));
                                WL (map WI (parser_ticks a b))]
       | _, _ => wbad
+      end
+  | WL [WI 5; WL s1; WL s2; WL fs] =>
+      match dec_stmts s1, dec_stmts s2, dec_bodies fs with
+      | Some a, Some b, Some funs =>
+          wok [WL (map w_var (prog_ticks a b funs)); WL (map w_var (prog_vars a b funs));
+               WL (map WI (parser_ticks a (b ++ concat funs)))]
+      | _, _, _ => wbad
       end
   | WL [WI 2; WL s1; WL s2] =>
       match un_sites s1, un_sites s2 with
